@@ -31,6 +31,7 @@ RULE = (
     "out some names; the clone is a different engine that takes part in the round like the others.  A fifth route "
     "materializes without a name, transfers the result to another engine and materializes again without a name.  "
     "Before every round the global `random` generator is re-seeded to the same value, as a host program may do. "
+    "  The fifth route also materializes the same first materialization a second time after a transfer. "
 )
 ASSUMPTIONS = [
     "schedules are explored only at the statement boundaries of get_relation_name (the only shared mutable state "
